@@ -1244,3 +1244,176 @@ def check_none_sizes(ctx, rep):
     rep.analysed['C19.G'] = {'sites': n}
     if n < 3:
         rep.incomplete('C19.G', '*', '', f"only {n} option-valued sizes found")
+
+
+# ---------------------------------------------------------------------------
+# C19.D — the object a reference resolves to offers what the referencing object reads on it
+# ---------------------------------------------------------------------------
+def _required_attributes(ctx, cls) -> Dict[str, Set[str]]:
+    """JSON key -> attributes the class reads on the object that key refers to (in from_json, in the constructor parameter that receives it and on the member it is stored in)"""
+    from sa.members import self_attr
+    fj = cls.resolve('from_json')
+    if not fj:
+        return {}
+    fn = fj[1]
+    data = fn.args.args[1].arg if len(fn.args.args) > 1 else 'data'
+    bound: Dict[str, str] = {}       # local name -> key
+    for st in ast.walk(fn):
+        if isinstance(st, ast.Assign) and len(st.targets) == 1 and isinstance(st.targets[0], ast.Name) and isinstance(st.value, ast.Call):
+            fname = (dotted_name(st.value.func) or '').split('.')[-1]
+            if fname in ('process_object', 'process_objects') and st.value.args:
+                a0 = st.value.args[0]
+                if isinstance(a0, ast.Subscript) and isinstance(a0.value, ast.Name) and a0.value.id == data and isinstance(a0.slice, ast.Constant):
+                    bound[st.targets[0].id] = a0.slice.value
+    req: Dict[str, Set[str]] = {}
+
+    from sa.cfg import CFG
+    LISTISH = {'append', 'extend', 'items', 'keys', 'values', 'get', 'pop', 'insert', 'sort', 'index', 'count', 'copy'}
+
+    def reads_on(scope, name, key):
+        """attributes read on `name` by statements that lie on every path through `scope` (a read under a condition is not required of every object)"""
+        try:
+            cfg = CFG(scope)
+        except Exception:
+            return
+        for node in cfg.stmt_nodes():
+            st = node.stmt
+            if st is None or isinstance(st, (ast.If, ast.For, ast.While, ast.Try, ast.With)):
+                continue
+            attrs = {x.attr for x in ast.walk(st) if isinstance(x, ast.Attribute) and isinstance(x.value, ast.Name) and x.value.id == name and isinstance(x.ctx, ast.Load)} - LISTISH
+            if attrs and cfg.must_pass(cfg.entry, cfg.exit, [node]):
+                req.setdefault(key, set()).update(attrs)
+    for nm, key in bound.items():
+        reads_on(fn, nm, key)
+    # constructor parameter receiving it
+    init = cls.resolve('__init__')
+    if init:
+        params = [a.arg for a in init[1].args.args][1:]
+        for c in ast.walk(fn):
+            if isinstance(c, ast.Call) and isinstance(c.func, ast.Name) and c.func.id == 'cls':
+                binds = dict(zip(params, c.args))
+                binds.update({k.arg: k.value for k in c.keywords if k.arg})
+                for pname, v in binds.items():
+                    if isinstance(v, ast.Name) and v.id in bound:
+                        key = bound[v.id]
+                        for k2 in cls.internal_mro():
+                            i2 = k2.methods.get('__init__')
+                            if i2 is None or pname not in [a.arg for a in i2.args.args]:
+                                continue
+                            reads_on(i2, pname, key)
+    return req
+
+
+def check_reference_types(ctx, rep):
+    from props.c19 import Readers, literal_type
+    from sa.members import instance_members
+    flow = Flow(ctx)
+    readers = Readers(ctx)
+    col = Collector(ctx, flow, readers)
+    reach = Reach(flow, col)
+    cond = Cond(reach)
+
+    class _Cmd:
+        values = set(ENTRY_POINTS(flow))
+    flow.fin[CMD] = _Cmd
+    registered = ctx.classes.registered()
+
+    def class_of(tname):
+        c = registered.get(tname) or registered.get(tname.split('.')[-1])
+        return c
+    # definitions with a constant type
+    defs = []
+    for fi in col.all_infos():
+        for d in ast.walk(fi.fn):
+            if isinstance(d, ast.Dict) and enclosing_fn(d) is fi.fn:
+                t = literal_type(d)
+                idv = next((v for k, v in zip(d.keys, d.values) if isinstance(k, ast.Constant) and k.value == 'id'), None)
+                if t is None or idv is None:
+                    continue
+                s, _ = col.strings(idv, fi, 0, True)
+                for x in s:
+                    if all(isinstance(p, str) for p in x.parts):
+                        defs.append((''.join(x.parts), t, x.with_pt(col.pt(fi, d)), f"{fi.module.path}:{d.lineno}"))
+    req_cache: Dict[str, Dict[str, Set[str]]] = {}
+    mem_cache: Dict[str, Set[str]] = {}
+    n = 0
+    seen = set()
+    for fi in col.all_infos():
+        for d in ast.walk(fi.fn):
+            if not isinstance(d, ast.Dict) or enclosing_fn(d) is not fi.fn:
+                continue
+            t = literal_type(d)
+            ccls = class_of(t) if t else None
+            if ccls is None:
+                continue
+            if t not in req_cache:
+                req_cache[t] = _required_attributes(ctx, ccls)
+            req = req_cache[t]
+            for k, v in zip(d.keys, d.values):
+                if not (isinstance(k, ast.Constant) and k.value in req and req[k.value]):
+                    continue
+                s, _ = col.strings(v, fi, 0, False)
+                for x in s:
+                    if not all(isinstance(p, str) for p in x.parts):
+                        continue
+                    name = ''.join(x.parts)
+                    r_s = x.with_pt(col.pt(fi, d))
+                    for dname, dt, d_s, dloc in defs:
+                        if dname != name:
+                            continue
+                        pcls = class_of(dt)
+                        if pcls is None:
+                            continue
+                        if dt not in mem_cache:
+                            mem_cache[dt] = instance_members(pcls)
+                        missing = sorted(a for a in req[k.value] if a not in mem_cache[dt] and not a.startswith('__'))
+                        key = f"{t}.{k.value}->{name}:{dt}"
+                        if key in seen:
+                            continue
+                        n += 1
+                        if not missing:
+                            seen.add(key)
+                            rep.ok('C19.D', key, f"{fi.module.path}:{d.lineno}", {'reads': sorted(req[k.value])})
+                            continue
+                        def variants(fi_, s_):
+                            """the template with each call site of its function appended (function parameters tested on the way are then bound by that call)"""
+                            sites = col.sites_of(fi_) if col.is_factory(fi_) is None else []
+                            out_ = []
+                            for c_fi, call in sites:
+                                n_ = c_fi.stmt_node_of(call)
+                                if n_ is not None:
+                                    out_.append(s_.with_pt((c_fi, n_.id)))
+                            return out_ or [s_]
+                        d_fi = d_s.pts[-1][0] if d_s.pts else None
+                        both = set()
+                        try:
+                            for ra in variants(fi, r_s):
+                                ca = cond.of(ra)
+                                if ca is None:
+                                    both = None
+                                    break
+                                for db in (variants(d_fi, d_s) if d_fi is not None else [d_s]):
+                                    cb = cond.of(db)
+                                    if cb is None:
+                                        both = None
+                                        break
+                                    both |= dnf_and(ca, cb)
+                                if both is None:
+                                    break
+                        except TooBig:
+                            both = None
+                        if both is None:
+                            seen.add(key)
+                            rep.undecided('C19.D', key, f"{fi.module.path}:{d.lineno}", 'co-reachability of the reference and the definition is not representable')
+                            continue
+                        if not both:
+                            continue
+                        seen.add(key)
+                        cube = sorted(both, key=repr)[0]
+                        envtxt = ', '.join(f"{a}={b!r}" for a, b in cube)
+                        rep.bad('C19.D', key, f"{fi.module.path}:{d.lineno}", {'reads': sorted(req[k.value]), 'missing_on': dt, 'defined_at': dloc, 'example_environment': envtxt},
+                                f"the emitted {t} refers to '{name}' through its '{k.value}' key and reads {missing} on it, but under [{envtxt}] the object with that id is a {dt}, "
+                                f"which has no such member: torchtree stops with AttributeError when the {t} is built or first used")
+    rep.analysed['C19.D'] = {'reference_definition_pairs': n}
+    if n < 5:
+        rep.incomplete('C19.D', '*', '', f"only {n} reference / definition pairs with attribute reads found")
